@@ -4,7 +4,8 @@ Everything happens on scratch copies under /tmp that are removed afterwards; /re
 import json, os, shutil, subprocess, sys, tempfile, time
 pid, letter = sys.argv[1], sys.argv[2]
 checks = sys.argv[3:] or [pid]
-src = '/tmp/wt_out/%s/%s' % (pid, letter)
+src = '%s/%s/%s' % (os.environ.get('SEED_SRC_ROOT', '/tmp/wt_out'), pid, letter)
+WT = '/tmp/wt/%s%s' % (pid, os.environ.get('SEED_WT_SUFFIX', ''))
 patch = os.path.join(src, 'patch.diff')
 out = dict(property=pid, variant=letter, ran=[])
 def sh(cmd, cwd=None, env=None, timeout=3600):
@@ -22,11 +23,11 @@ d1 = scratch(True)
 env = dict(os.environ, PYTHONPATH='%s/src:%s' % (d1, d1))
 rc, o = sh('/venv/bin/python -m pytest -q -p no:cacheprovider test 2>&1 | tail -1', cwd=d1, env=env)
 out['suite_with_patch'] = o.strip()
-open(os.path.join(d1, 'demo_seed.py'), 'w').write(open(os.path.join(src, 'demo.py')).read().replace('/tmp/wt/%s' % pid, d1))
+open(os.path.join(d1, 'demo_seed.py'), 'w').write(open(os.path.join(src, 'demo.py')).read().replace(WT, d1))
 t = time.time(); rc, o = sh('/venv/bin/python demo_seed.py', cwd=d1, env=env); out['demo_with_patch_exit'] = rc; out['demo_with_patch_tail'] = o.strip().splitlines()[-3:]; out['demo_seconds'] = round(time.time() - t, 1)
 d0 = scratch(False)
 env0 = dict(os.environ, PYTHONPATH='%s/src:%s' % (d0, d0))
-open(os.path.join(d0, 'demo_seed.py'), 'w').write(open(os.path.join(src, 'demo.py')).read().replace('/tmp/wt/%s' % pid, d0))
+open(os.path.join(d0, 'demo_seed.py'), 'w').write(open(os.path.join(src, 'demo.py')).read().replace(WT, d0))
 rc, o = sh('/venv/bin/python demo_seed.py', cwd=d0, env=env0); out['demo_without_patch_exit'] = rc
 shutil.rmtree(d0, ignore_errors=True)
 for c in checks:
